@@ -93,6 +93,8 @@ class FakeSocket:
         if self.on_recv is not None:
             self.on_recv(self, item)
         if isinstance(item, BaseException):
+            if isinstance(item, (ConnectionResetError, TimeoutError, BrokenPipeError)):
+                self.peer_gone = True  # the kernel has dropped the connection: getpeername() answers ENOTCONN from now on
             raise item
         return item
 
@@ -106,6 +108,8 @@ class FakeSocket:
             raise OSError(errno.EBADF, "send on closed socket")
         if self.send_error is not None:
             err, self.send_error = self.send_error, None
+            if isinstance(err, OSError) and err.errno in (errno.EPIPE, errno.ECONNRESET, errno.ETIMEDOUT):
+                self.peer_gone = True
             raise err
         if not self.writable:
             raise BlockingIOError(errno.EAGAIN, "send would block")
